@@ -282,6 +282,44 @@ def oracle_relations(case, rec):
                       rtol=1e-9)
             rec.close(a1[::-1], r0, "reversal_exchanges_" + name + "_adv_ret",
                       rtol=1e-9)
+    if case.get("deep"):
+        # definitions: inverse mean path length to the past / future nodes,
+        # and the boundary-corrected combinations of the time-directed
+        # measures (weights = number of past / future samples)
+        from vp.ref import graph as RG
+        D = RG.path_lengths(A)
+        idx = np.arange(n)
+        with np.errstate(all="ignore"):
+            rc_ref = np.array([1.0 / D[i, :i].mean() if i else np.nan
+                               for i in range(n)])
+            ac_ref = np.array([1.0 / D[i, i + 1:].mean() if i < n - 1
+                               else np.nan for i in range(n)])
+
+        def nn(v):
+            return np.nan_to_num(np.asarray(v, dtype=float), nan=-1.0,
+                                 posinf=-2.0, neginf=-3.0)
+        with np.errstate(all="ignore"):
+            okr, rcl = rec.call("retarded_closeness", vg.retarded_closeness)
+            oka, acl = rec.call("advanced_closeness", vg.advanced_closeness)
+            if okr:
+                rec.close(nn(rcl), nn(rc_ref), "retarded_closeness_def",
+                          rtol=1e-9)
+            if oka:
+                rec.close(nn(acl), nn(ac_ref), "advanced_closeness_def",
+                          rtol=1e-9)
+            okb, bcc = rec.call("boundary_corrected_closeness",
+                                vg.boundary_corrected_closeness)
+            if okb and n >= 2:
+                want = (n - 1) * (rc_ref / idx + ac_ref / idx[::-1])
+                rec.close(nn(bcc), nn(want),
+                          "boundary_corrected_closeness_def", rtol=1e-9)
+        okb, bcd = rec.call("boundary_corrected_degree",
+                            vg.boundary_corrected_degree)
+        if okb and n >= 2:
+            rd_ref = np.array([A[i, :i].sum() for i in range(n)])
+            ad_ref = np.array([A[i, i + 1:].sum() for i in range(n)])
+            rec.close(bcd, (rd_ref * idx + ad_ref * idx[::-1]) / float(n - 1),
+                      "boundary_corrected_degree_def", rtol=1e-12)
     if case.get("deep") and n <= 10:
         ok1, tb0 = rec.call("trans_betweenness", vg.trans_betweenness)
         ok2, tb1 = rec.call("trans_betweenness_rev", vgr.trans_betweenness)
